@@ -26,6 +26,19 @@ pub struct DuplexCfg {
     pub keep_snapshots: bool,
     /// Each side performs its end action only after its reader got everything it expects.
     pub coordinated_close: bool,
+    pub chaos: Chaos,
+}
+
+/// A fault injected by the scenario itself (as opposed to the network's fault plan).
+#[derive(Clone, Debug, PartialEq)]
+pub enum Chaos {
+    None,
+    /// Cut the network at the instant a flush/shutdown of this side returns Ok.
+    CutAtOk { side: u8 },
+    /// Inject a spoofed ST_RESET towards this side at this time.
+    ResetAt { side: u8, at: Us },
+    /// Cancel this side's socket cancellation token at this time.
+    CancelAt { side: u8, at: Us },
 }
 
 impl DuplexCfg {
@@ -93,8 +106,44 @@ pub async fn duplex_scenario(world: Arc<World>, cfg: DuplexCfg, case_seed: u64) 
         d0 = Some((cfg.w[1].total, t0));
         d1 = Some((cfg.w[0].total, t1));
     }
-    let hw0 = tokio::spawn(run_writer(ctx(0), wa, k0, cfg.w[0].clone(), rng.fork(1), g0));
-    let hw1 = tokio::spawn(run_writer(ctx(1), wb, k1, cfg.w[1].clone(), rng.fork(2), g1));
+    let cut_for = |side: u8| match cfg.chaos {
+        Chaos::CutAtOk { side: s } if s == side => Some(world.net.clone()),
+        _ => None,
+    };
+    match cfg.chaos {
+        Chaos::ResetAt { side, at } => {
+            let w2 = world.clone();
+            let (victim, spoofed) = if side == 0 { (aa, ba) } else { (ba, aa) };
+            tokio::spawn(async move {
+                w2.sleep_us(at).await;
+                // the connection id the victim receives on: the SYN's id for the initiator, +1 for the acceptor
+                let c = w2.log.with(|evs| {
+                    evs.iter().find_map(|e| match &e.ev {
+                        crate::events::Ev::Send { pkt: Some(p), .. } if p.ty == crate::wire::ST_SYN => Some(p.conn_id),
+                        _ => None,
+                    })
+                });
+                if let Some(c) = c {
+                    let id = if side == 0 { c } else { c.wrapping_add(1) };
+                    let pkt = crate::wire::Pkt::new(crate::wire::ST_RESET, id, 0, 0, 0);
+                    w2.log.note(format!("injecting spoofed ST_RESET towards side {side}"));
+                    let _ = w2.net.send(None, spoofed, victim, pkt.encode(), true);
+                }
+            });
+        }
+        Chaos::CancelAt { side, at } => {
+            let w2 = world.clone();
+            let tok = if side == 0 { a.token.clone() } else { b.token.clone() };
+            tokio::spawn(async move {
+                w2.sleep_us(at).await;
+                w2.log.note(format!("cancelling the socket token of side {side}"));
+                tok.cancel();
+            });
+        }
+        _ => {}
+    }
+    let hw0 = tokio::spawn(run_writer(ctx(0), wa, k0, cfg.w[0].clone(), rng.fork(1), g0, cut_for(0)));
+    let hw1 = tokio::spawn(run_writer(ctx(1), wb, k1, cfg.w[1].clone(), rng.fork(2), g1, cut_for(1)));
     let hr0 = tokio::spawn(run_reader(ctx(0), ra, k1, cfg.r[0].clone(), rng.fork(3), d0));
     let hr1 = tokio::spawn(run_reader(ctx(1), rb, k0, cfg.r[1].clone(), rng.fork(4), d1));
     out.w[0] = hw0.await.ok();
@@ -430,6 +479,7 @@ pub fn generate(case_seed: u64, profile: Profile, max_total: usize) -> Generated
             deadline: Duration::from_secs(3600),
             keep_snapshots: false,
             coordinated_close: profile != Profile::General,
+            chaos: Chaos::None,
         },
         plan,
         plan_desc,
